@@ -108,6 +108,16 @@ TablePass(D, I, r0) ==
         [] r.verb = "should_not"  /\ r.exc  -> ~AnyEdge(D, I, r, s)
 
 (***************************************************************************)
+(* Renaming (C14): a rule, and an outcome, under a renaming of components.  *)
+(***************************************************************************)
+RenFilter(rho, f)  == [f EXCEPT !.name = RenName(rho, f.name)]
+RenFilters(rho, F) == {RenFilter(rho, f) : f \in F}
+RenRule(rho, r)    == [r EXCEPT !.subs = RenFilters(rho, r.subs), !.objs = RenFilters(rho, r.objs)]
+RenMissing(rho, M) == {<<RenFilter(rho, x[1]), RenFilters(rho, x[2])>> : x \in M}
+RenOutcome(rho, o) == [pass |-> o.pass, realised |-> RenEdges(rho, o.realised),
+                       medge |-> RenMissing(rho, o.medge), mother |-> RenMissing(rho, o.mother)]
+
+(***************************************************************************)
 (* Rule algebra (C12): partner rules.                                       *)
 (***************************************************************************)
 OtherDir(d) == IF d = "import" THEN "imported" ELSE "import"
